@@ -78,4 +78,39 @@ PLAN = {
         "merge": [{"family": "arith_all", "variants": ["std", "nostd"]}, {"family": "frac", "variants": ["std", "nostd"]},
                   {"family": "conv", "variants": ["std", "nostd"]}, {"family": "fma", "variants": ["std", "nostd"]}],
     },
+    "C12": {
+        "level": "model_checking",
+        "rule": RULE_TRACE + "; the 19 constants + 7 associated constants are a finite set checked completely on every run: each is compared with the correctly rounded double-double of a rigorous ball enclosure (pi by Machin, ln 2 / ln 10 by atanh series, e by Taylor, roots and reciprocals by verified long division / integer square root, all in TLA+)",
+        "traces": [T("angles", (250, 6000), (12, 14))],
+    },
+    "C13": {
+        "level": "exploration",
+        "rule": RULE_TRACE + "; sqrt/cbrt/hypot are decided by exact dyadic inequalities on r^2, r^3; powi against a ball enclosure of x^|n| by binary powering",
+        "traces": [T("roots", (120, 3000), (8, 14)), T("powi", (80, 2000), (6, 14))],
+    },
+    "C14": {
+        "level": "exploration",
+        "rule": RULE_TRACE + "; exp/exp2/exp_m1/powf against rigorous ball enclosures (Taylor series with explicit remainder, argument reduction with an enclosure of ln 2) computed in TLA+; stratified over every entry of the exp(n/128)-1, exp(1/2)^n, exp(16)^n tables and both sides of each range switch",
+        "traces": [T("exps", (140, 4000), (14, 14))],
+    },
+    "C15": {
+        "level": "exploration",
+        "rule": RULE_TRACE + "; logarithms are enclosed by one or two rigorous Newton steps ln x = h + ln(1 + (x - e^h)/e^h) from the claimed result as hint, in ball arithmetic",
+        "traces": [T("logs", (80, 2500), (14, 14))],
+    },
+    "C16": {
+        "level": "exploration",
+        "rule": RULE_TRACE + "; sin/cos against ball enclosures (reduction with an enclosure of pi/2, Taylor series with remainder), tan cross-multiplied by cos^2",
+        "traces": [T("trig", (100, 3000), (14, 14))],
+    },
+    "C17": {
+        "level": "exploration",
+        "rule": RULE_TRACE + "; inverse functions are checked by monotone inversion through enclosures of sin/cos at r +- tolerance, with the branch/axis conventions as exact clauses",
+        "traces": [T("atrig", (80, 2500), (14, 14))],
+    },
+    "C18": {
+        "level": "exploration",
+        "rule": RULE_TRACE + "; sinh/cosh/tanh against enclosures of exp; asinh/acosh/atanh by monotone inversion through exp(r +- tolerance); (x, -x) pairs at every magnitude",
+        "traces": [T("hyp", (50, 1500), (14, 14))],
+    },
 }
